@@ -143,6 +143,14 @@ fn hash_int_function(
     input.hash(&mut hasher);
     let hash = hasher.finish();
 
+    // format! panics for a width above u16::MAX ("Formatting argument out of range")
+    if allow_leading_zero && length > u16::MAX as usize {
+        return Err(tera::Error::msg(format!(
+            "hash_int: length {length} is too large (maximum {})",
+            u16::MAX
+        )));
+    }
+
     let result = if allow_leading_zero {
         format!("{:0width$}", hash, width = length)
     } else {
